@@ -73,6 +73,8 @@ class Meta(dict):
         return self
 
     def setdefault(self, key, value=None):
+        # entries are stored under the mapped key (e.g., point -> symbol)
+        key = self.key_mapping.get(key, key)
         if key not in self:
             self[key] = value
         return self[key]
